@@ -852,6 +852,9 @@ def run_via_manifest(env, c, only_rep: str | None = None):
             # a multi-period manifest ignores a period's stream defaults (ledger C11
             # mps-manifest-ignores-period-stream-defaults): those tracks are left to that finding
             if c.get("la") and "__" in c["la"][0] and not (route == "mps" and lib.default_license_url(env, m["stream"])):
+                if c["la"][0] == "playready__la_url":
+                    import urllib.parse as _up
+                    ic["asked_la_url"] = _up.unquote_plus(c["la"][1])
                 ic["manifest_pr_pssh"] = next((cp["pssh"].hex() for cp in adp["cps"]
                                                if cp["pssh"] is not None and lib.system_of_scheme(cp["scheme"]) == "playready"), None)
             out.append((ic, m, ri, iurl))
@@ -868,6 +871,16 @@ def handed_on_failures(ic, ri) -> list[dict]:
         got = [p.raw.hex() for p in lib.moov_psshs(ri.data) if p.system_id == orc.PLAYREADY_SYSTEM_ID]
     except Exception:
         return []
+    # ... and it names the licence URL this very request asked for, whatever earlier requests asked for
+    # (a URL without place holders is written as it is)
+    asked = ic.get("asked_la_url")
+    if got and asked and "{" not in asked:
+        try:
+            named = orc.read_wrmheader(orc.parse_pro(lib.parse_standalone_pssh(bytes.fromhex(got[0])).data)[0][2])["la_url"]
+        except Exception:
+            named = None
+        if named is not None and named != asked:
+            return [{"what": f"the PlayReady pssh of the init segment names LA_URL {named!r}, the request asked for {asked!r}"}]
     if got and got[0] != want:
         def la(h):
             try:
